@@ -102,7 +102,19 @@ Definition wf_text_entry (kv : list N * rawval) : Prop :=
   | RList l => forall x, In x l -> clean x
   | RDict d => forall p, In p d -> no_break (fst p) /\ no_break (snd p)
   end.
-Definition wf_text (r : list (list N * rawval)) : Prop := wf r /\ forall kv, In kv r -> wf_text_entry kv.
+(* a str that is text: no surrogate code point (U+D800..DFFF).  The e-mail package reads U+DC80..DCFF in a str as smuggled bytes: it
+   re-decodes them as UTF-8 in a header, replaces them by U+FFFD in a body, and raises UnicodeEncodeError on the other surrogates - so a
+   value containing one does not come back, although the line-level theorem below would not notice (code points are arbitrary numbers
+   there).  The condition is not used by the proofs; it restricts the domain to where the round trip of the real code holds. *)
+Definition text_str (s : list N) : Prop := forall c, In c s -> c < 55296 \/ 57343 < c.
+Definition text_entry (kv : list N * rawval) : Prop :=
+  match snd kv with
+  | RStr s => text_str s
+  | RList l => forall x, In x l -> text_str x
+  | RDict d => forall p, In p d -> text_str (fst p) /\ text_str (snd p)
+  end.
+Definition wf_text (r : list (list N * rawval)) : Prop :=
+  wf r /\ (forall kv, In kv r -> wf_text_entry kv) /\ (forall kv, In kv r -> text_entry kv).
 
 Lemma table_names_ok : forallb (fun row => header_name_ok (fst (snd row)) && negb (seqb (fst (snd row)) k_content_type)) gen_fields = true.
 Proof. vm_compute. reflexivity. Qed.
@@ -134,7 +146,7 @@ Qed.
 
 Lemma ser_items_simple r : wf_text r -> forall i, In i (ser_items spell r) -> simple_item i.
 Proof.
-  intros [[ND W] T] i Hi. unfold ser_items in Hi. apply in_flat_map in Hi as [kv [Ikv Hi]].
+  intros [[ND W] [T _]] i Hi. unfold ser_items in Hi. apply in_flat_map in Hi as [kv [Ikv Hi]].
   destruct (W _ Ikv) as [e [kind [E WF]]]. pose proof (ser_entry_items spell kv e kind i E Hi) as [Hn Hv].
   assert (TE : header_name_ok e = true /\ e <> k_content_type).
   { unfold email_of_key in E. destruct (lookup (fst kv) gen_fields) as [[e' [a kd]]|] eqn:L; [|discriminate]. inversion E; subst.
